@@ -192,14 +192,13 @@ type Net struct {
 	N, D, S, F, K *tsConn // N: the address the client queries (requests arrive here); D: delivers datagrams to the client (same IP)
 	Arrivals   chan Arrival
 	Logs       chan LogRec
-	Done       chan MeasureResult
+	cur        chan MeasureResult // result channel of the call in progress (nil: none); harness goroutine only
 	T          Transport
 	ClientID   string
 	hcount     int
 	Handlings  map[int]*Handling
 	stop       chan struct{}
 	wg         sync.WaitGroup
-	calling    atomic.Bool
 	Timeout    time.Duration
 }
 
@@ -212,7 +211,7 @@ type MeasureResult struct {
 func NewNet() (*Net, error) { return NewNetFor("ip") }
 
 func NewNetFor(kind string) (*Net, error) {
-	n := &Net{Arrivals: make(chan Arrival, 64), Logs: make(chan LogRec, 256), Done: make(chan MeasureResult, 4),
+	n := &Net{Arrivals: make(chan Arrival, 64), Logs: make(chan LogRec, 256),
 		Handlings: map[int]*Handling{}, stop: make(chan struct{}), Timeout: 150 * time.Millisecond}
 	var err error
 	if n.N, err = listenTS("127.0.0.1"); err != nil {
@@ -262,9 +261,12 @@ func (n *Net) Close() {
 	}
 }
 
-// StartMeasure runs one client.MeasureClockOffsetIP call in its own goroutine.
+// StartMeasure runs one measurement call of the client under test in its own
+// goroutine. The harness (one goroutine) owns n.cur: a call counts as running
+// until its result has been taken with Wait or Poll.
 func (n *Net) StartMeasure() {
-	n.calling.Store(true)
+	ch := make(chan MeasureResult, 1)
+	n.cur = ch
 	go func() {
 		ctx, cancel := context.WithTimeout(context.Background(), n.Timeout)
 		defer cancel()
@@ -282,12 +284,37 @@ func (n *Net) StartMeasure() {
 			}()
 			res, _ = n.T.Measure(ctx, n)
 		}()
-		n.calling.Store(false)
-		n.Done <- res
+		ch <- res
 	}()
 }
 
-func (n *Net) Calling() bool { return n.calling.Load() }
+func (n *Net) Calling() bool { return n.cur != nil }
+
+// Poll takes the result of the running call if it has finished.
+func (n *Net) Poll() {
+	if n.cur == nil {
+		return
+	}
+	select {
+	case <-n.cur:
+		n.cur = nil
+	default:
+	}
+}
+
+// Wait blocks until the running call has returned (or d has passed).
+func (n *Net) Wait(d time.Duration) bool {
+	if n.cur == nil {
+		return true
+	}
+	select {
+	case <-n.cur:
+		n.cur = nil
+		return true
+	case <-time.After(d):
+		return false
+	}
+}
 
 func (n *Net) SetTheta(d time.Duration) { Clock.theta.Store(int64(d)) }
 func (n *Net) Theta() time.Duration    { return time.Duration(Clock.theta.Load()) }
